@@ -48,13 +48,7 @@ class BitcoinSolutionChecker(SegwitChecker, P2SChecker):
         if len(sig_blob) == 1:
             # consensus removes the push as `CScript() << sig` writes it: by length alone, never as OP_1..OP_16/OP_1NEGATE
             subscript = b"\x01" + sig_blob
-        new_script = bytearray()
-        pc = 0
-        for opcode, data, pc, new_pc in self.ScriptTools.get_opcodes(script):
-            section = script[pc:new_pc]
-            if section != subscript:
-                new_script.extend(section)
-        return bytes(new_script)
+        return self.delete_subscript(script, subscript)
 
     def _make_sighash_f(self, tx_in_idx: int) -> Any:
 
@@ -113,13 +107,23 @@ class BitcoinSolutionChecker(SegwitChecker, P2SChecker):
         Returns a script with the given subscript removed. The subscript
         must appear in the main script aligned to opcode boundaries for it
         to be removed.
+
+        A push that is cut short by the end of the script cannot be decoded:
+        as in consensus (FindAndDelete), decoding stops there and the rest of
+        the script is kept as it is.
         """
+        get_opcode = class_.ScriptTools.scriptStreamer.get_opcode
         new_script = bytearray()
         pc = 0
-        for opcode, data, pc, new_pc in class_.ScriptTools.get_opcodes(script):
+        while pc < len(script):
+            opcode, data, new_pc, is_ok = get_opcode(script, pc)
+            if not is_ok:
+                new_script.extend(script[pc:])
+                break
             section = script[pc:new_pc]
             if section != subscript:
                 new_script.extend(section)
+            pc = new_pc
         return bytes(new_script)
 
     def _signature_hash(self, tx_out_script: bytes, unsigned_txs_out_idx: int, hash_type: int) -> int:
